@@ -78,11 +78,34 @@ def classify(res, case):
     return out
 
 
+UNPRIV = ('LDRT_', 'STRT_', 'LDRBT_', 'STRBT_', 'LDRHT_', 'STRHT_', 'LDRSBT_', 'LDRSHT_')
+
+
 def case_kw(rng, row):
-    return {'mpu': False, 'mmu': False, 'e': rng.choice((0, 0, 0, 1))}
+    kw = {'mpu': False, 'mmu': False, 'e': rng.choice((0, 0, 0, 1))}
+    if row.name.startswith(UNPRIV) and rng.random() < 0.5:
+        # the unprivileged forms differ from the plain ones only in the privilege the access is made with: MPU on, the data window
+        # privileged-only or user-read-only (see unpriv_window), executed from privileged modes
+        kw['mpu'] = True
+        kw['mode'] = rng.choice(('svc', 'sys', 'irq', 'abt', 'usr'))
+    return kw
 
 
-PLAN = e1prop.Plan('C02', ROWS, cfgs=('v6', 'v7', 'v6-nosec', 'v5', 'v7-lpae'), classify=classify, case_kw=case_kw, tweak_case=seed_monitor,
+def unpriv_window(rng, row, w, case):
+    seed_monitor(rng, row, w, case)
+    st = case['state']
+    if row.name.startswith(UNPRIV) and st['sctlr'] & 1 and 'drsrs[0]' in st:
+        n = 12
+        st['mpuir'] = n << 8
+        st['drsrs[%d]' % (n - 2)] = (31 << 1) | 1           # everything read/write ...
+        st['drbars[%d]' % (n - 2)] = 0
+        st['dracrs[%d]' % (n - 2)] = 3 << 8
+        st['drsrs[%d]' % (n - 1)] = (8 << 1) | 1            # ... except the 512-byte data window: AP 001 (privileged only) / 010 (user read-only)
+        st['drbars[%d]' % (n - 1)] = gen.DATA[0] & ~0x1FF
+        st['dracrs[%d]' % (n - 1)] = rng.choice((1, 2, 1, 5, 6)) << 8
+
+
+PLAN = e1prop.Plan('C02', ROWS, cfgs=('v6', 'v7', 'v6-nosec', 'v5', 'v7-lpae'), classify=classify, case_kw=case_kw, tweak_case=unpriv_window,
                    hooked=(False, False, True))
 
 
@@ -119,7 +142,7 @@ def run(ctx):
                 'snapshot incl. every memory byte. Stock and hooked (exclusive monitor implemented) targets. Non-trivial: condition passed '
                 'and state other than PC changed; distinct = (word, CPSR, registers).')
     ctx.technique = 'property-based differential testing against an independent reference interpreter (Hypothesis-driven generation)'
-    ctx.assumptions = ['vf/ref (tables + sem_ls.py + machine.py) is a faithful reading of DDI 0406C', 'MPU/MMU off here (C14/C15)',
+    ctx.assumptions = ['vf/ref (tables + sem_ls.py + machine.py) is a faithful reading of DDI 0406C', 'MPU/MMU off here (C14/C15) except for the unprivileged forms, half of which run against a privileged-only / user-read-only data window',
                        'store-exclusive with the stock monitor stubs is pinned to the documented "no reservation" outcome']
     e1prop.run_plan(ctx, 'vf.props.c02:PLAN', PLAN, shards=32, quick=600, thorough=10000)
     e1prop.run_plan(ctx, 'vf.props.c02:PLAN_DUAL', PLAN_DUAL, shards=8, quick=150, thorough=3000)
